@@ -606,6 +606,23 @@ func (c *Ctx) ruleNilMap() {
 			if !okM && c.mapMadeByInitMethod(mu) {
 				okM = true
 			}
+			if !okM {
+				// `m := outer[k]; if m == nil { m = make(...); outer[k] = m }; m[x] = ...`: every way the written map
+				// is chosen is either a fresh make or a value that was just found to be non-nil
+				okM = true
+				for _, vc := range P.ValueCases(mu.Map, 0) {
+					if _, isMk := vc.Val.(*ssa.MakeMap); isMk {
+						continue
+					}
+					nonNil := hasLit(append(append([]Lit{}, vc.Guards...), P.BlockGuards(b)...), func(l Lit) bool {
+						v := nilCheckedValue(l)
+						return v != nil && !l.Pos && v == vc.Val
+					})
+					if !nonNil {
+						okM = false
+					}
+				}
+			}
 			c.check(okM, "NIL-MAP", cons, P.Pos(mu.Pos()), "written map originates from make (or a nil map is replaced by make first)", "write to a map that may be nil: "+short(P.DescDeep(mu.Map)))
 		})
 	}
